@@ -186,7 +186,19 @@ func c17Scenario(r *vf.Run, t *testing.T, id string, rng *rand.Rand) {
 			fr := append([][]byte{}, frames...)
 			for m := 1 + rng.Intn(3); m > 0 && len(fr) > 0; m-- {
 				i := rng.Intn(len(fr))
-				switch op := rng.Intn(7); op {
+				switch op := rng.Intn(8); op {
+				case 7: // structure-aware: a HEADERS/DATA frame re-flagged PADDED (+PRIORITY) with a PRNG pad length octet
+					c := append([]byte{}, fr[i]...)
+					if len(c) > 9 && (c[3] == wire.THeaders || c[3] == wire.TData) {
+						c[4] |= wire.FPadded
+						if c[3] == wire.THeaders && rng.Intn(2) == 0 {
+							c[4] |= wire.FPriority
+						}
+						n := len(c) - 9
+						c[9] = byte([]int{0, 1, n - 1, n - 2, n - 5, n - 6, n - 7, n, 255, rng.Intn(256)}[rng.Intn(10)])
+					}
+					fr[i] = c
+					class += "X"
 				case 0: // delete
 					fr = append(fr[:i], fr[i+1:]...)
 					class += "D"
@@ -271,6 +283,12 @@ func c17Scenario(r *vf.Run, t *testing.T, id string, rng *rand.Rand) {
 				}
 			}
 			replay["flood_frames"] = nfl
+			if rng.Intn(2) == 0 {
+				// something the stream loop has to answer with a connection error, queued behind the flood
+				b = append(b, [][]byte{rt.RstStream(next+100, 8), rt.WindowUpdate(next+100, 5), wire.Frame(nil, wire.TData, 0, next+100, []byte("idle"), -1), rt.Priority(next+100, next+100, false, 1), rt.WindowUpdate(0, 1<<31-1), rt.WindowUpdate(0, 1<<31-1)}[rng.Intn(6)]...)
+				b = append(b, rt.WindowUpdate(0, 1<<31-1)...)
+				class += "+connerr"
+			}
 			write(b)
 			time.Sleep(time.Duration(rng.Intn(3000)) * time.Millisecond)
 			rt.Wait()
